@@ -2,9 +2,9 @@
 from __future__ import annotations
 from engine.registry import Registry
 from engine import sortmodel, polymodel
-from contracts import option, sorting, align, compare, order_lemmas
+from contracts import option, sorting, align, compare, order_lemmas, leading
 
-_CONTRACT_MODULES = [option, sorting, align, compare]
+_CONTRACT_MODULES = [option, sorting, align, compare, leading]
 
 ALL_CONTRACTS = {}
 for _m in _CONTRACT_MODULES:
@@ -15,12 +15,20 @@ for _m in _CONTRACT_MODULES:
 def build_registry():
     reg = Registry()
     sortmodel.install(reg)
-    polymodel.install(reg)
+    polymodel.install(reg)      # (numpy.array: polymodel's axiom covers index vectors too)
     for c in ALL_CONTRACTS.values():
         def model(ex, args, kw, node, _c=c):
             ex.reg.used.add("contract:" + _c.name)
             return _c.apply(ex, args, kw, node)
         reg.fn[c.name] = model
+    # ndpoly methods that merely forward to a numpoly function (read from baseclass.py each run)
+    import os
+    from engine.forwarders import forwarders
+    from engine.extract import REPO
+    for meth, fw in forwarders(os.environ.get("NUMPOLY_REPO", REPO)).items():
+        if fw["target"] in reg.fn and fw["args"] and fw["args"][0] == "self" and not fw["kwargs"] and not fw["star_kwargs"] \
+                and fw["args"] == fw["params"]:
+            reg.fn[f"numpoly.ndpoly.{meth}"] = reg.fn[fw["target"]]
     return reg
 
 
